@@ -28,6 +28,8 @@ class Sampler:
         return self._sample(z0, n_steps)
 
     def _eval(self, z):
+        if self.xp is not None:
+            z = self.xp.asarray(z)      # the real kernel works in the namespace it is given
         lp = self.log_prob_fn(z)
         if hasattr(lp, "detach"):
             lp = lp.detach().cpu().numpy()
@@ -50,4 +52,7 @@ class Sampler:
             lp = np.where(a, lpp, lp)
             acc.append(a.mean())
             chain.append(z.copy())
-        return np.stack(chain), SimpleNamespace(acceptance_rate=np.array(acc))
+        out = np.stack(chain)
+        if self.xp is not None:
+            out = self.xp.asarray(out)      # the real kernel returns the chain in its namespace
+        return out, SimpleNamespace(acceptance_rate=np.array(acc))
